@@ -5,6 +5,7 @@ from pyvc.harness import Task, load_spec_module
 from pyvc import ops, stubs
 from pyvc.values import Obj, Sym, Arr, Vec
 from pyvc.interp import SliceVal
+from pyvc.lib import slice_bounds, slice_len
 from pyvc.engine import RaiseSignal
 import contracts.C18 as K
 
@@ -18,8 +19,8 @@ FUNCTIONS = [f'{M}.{m}' for m in ('__init__', '__len__', '__getitem__', '__setit
 ASSUMPTIONS = [
     'A-8 numpy behaves as the libspec axioms (zeros, concatenate, delete(axis=0), slicing, slice assignment) say',
     'rows are modelled as elements of a 1-D array (shape (B,)); numpy treats rows of an n-D array the same way along axis 0',
-    'delete: precondition 0 <= index < len (every call site passes an index found by a search); axis == 0 or 1-D',
-    'slices: step None; slice assignment: start given, target range inside the list and of the length of the item',
+    'delete: every index valid on the list (-len <= index < len); axis == 0 or 1-D',
+    'slices: step None; slice assignment: any missing / negative / out-of-range bounds, item of the length of the selected range (equal-length)',
     'get_past_item: past_index >= 0; append_multiple with drop_at: precondition that the retained part still holds all new items',
 ]
 TRUSTED = ['numpy.zeros', 'numpy.concatenate', 'numpy.delete', 'numpy.empty_like', 'numpy slicing / slice assignment']
@@ -129,8 +130,9 @@ def t_append_multiple(drop):
 def t_delete(h):
     a = mk_state(h, 'none')
     L = snap(h, a)
-    i = h.int('i', 0)
-    h.assume(ops.compare('<', i, L.n))
+    i = h.int('i')
+    # every index valid on the list: -len <= i < len
+    h.assume(ops.land(ops.compare('>=', i, ops.neg(L.n)), ops.compare('<', i, L.n)))
     h.cover('delete.pre')
     want = h.spec('m_delete', L, i)
     out = h.method_outcome(a, 'delete', i, axis=0)
@@ -192,25 +194,20 @@ def t_setitem(h):
         post(h, a, L, 'setitem.rejected')
 
 
-def t_setslice(has_stop):
+def t_setslice(has_start, has_stop):
+    """equal-length slice assignment with any bounds a list accepts: missing, negative, beyond either end"""
     def t(h):
         a = mk_state(h, 'none')
         L = snap(h, a)
         n = L.n
-        start = h.int('start')
+        start = h.int('start') if has_start else None
+        stop = h.int('stop') if has_stop else None
         items = h.ctx.fresh_arr('items', np=True)
-        # "equal-length slice assignment" on a range inside the list
-        s_norm = ops.ite(ops.compare('<', start, 0).t, ops.arith('+', start, n), start)
-        h.assume(ops.land(ops.compare('>=', s_norm, 0), ops.compare('<=', ops.arith('+', s_norm, items.n), n)))
-        if has_stop:
-            stop = h.int('stop')
-            e_norm = ops.ite(ops.compare('<', stop, 0).t, ops.arith('+', stop, n), stop)
-            h.assume(ops.equal(e_norm, ops.arith('+', s_norm, items.n)))
-        else:
-            stop = None
+        lo, hi = slice_bounds(SliceVal(start, stop, None), n)
+        # "equal-length": the items replace exactly the rows the slice selects
+        h.assume(ops.equal(items.n, slice_len(lo, hi)))
         h.cover('setslice.pre')
-        want = h.spec('m_setslice', L, start, stop if has_stop else ops.arith('+', s_norm, items.n),
-                      Arr(items.n, items.fn, np=False))
+        want = h.spec('m_setslice', L, start, stop, Arr(items.n, items.fn, np=False))
         out = h.outcome(f'{M}.__setitem__', a, SliceVal(start, stop, None), items)
         h.prove(out.ok, 'setslice.no-exception', {'raised': out.exc})
         if out.ok:
@@ -273,5 +270,6 @@ def tasks(tier):
         for he in (False, True):
             ts.append(Task(f'getslice.start{int(hs)}.stop{int(he)}', t_getslice(hs, he), extra=x))
     for he in (False, True):
-        ts.append(Task(f'setslice.stop{int(he)}', t_setslice(he), extra=x))
+        for hs in (True, False):
+            ts.append(Task(f'setslice.start{int(hs)}.stop{int(he)}', t_setslice(hs, he), extra=x))
     return ts
